@@ -342,6 +342,8 @@ def run(repo: Repo, rep):
     r2_fix_points_order(repo, rep)
     r3_compositions(repo, rep)
     r4_purity_and_label(repo, rep)
+    from .c12 import r3_selection  # the name-based selection this property's idioms rely on
+    r3_selection(repo, rep)
 
 
 _F = "src/torchphysics/models/fcn.py"
